@@ -76,8 +76,10 @@ func (w *worker) run(ctx context.Context, timeout time.Duration, resultCh chan<-
 
 	for curr := w.state.from; curr <= w.state.to; curr++ {
 		err := w.sample(ctx, timeout, curr)
-		if errors.Is(err, context.Canceled) {
-			// sampling worker will resume upon restart
+		if errors.Is(err, context.Canceled) && ctx.Err() != nil {
+			// the DASer is stopping: sampling worker will resume upon restart.
+			// A cancellation that did not come from the worker's own context is a
+			// regular sampling failure and has to be reported like any other.
 			return
 		}
 		if errors.Is(err, availability.ErrOutsideSamplingWindow) {
